@@ -471,9 +471,11 @@ def run(chk):
     ok, log = chk.prove(["extract/Extract_C09.vo", "extract/Extract_ED.vo", "theories/ThermalExamples.vo"],
                         extra_props=["Properties_C19_source.v"])
     chk.trusted += ["hand-written model coq/theories/Thermal.v: tied by correspondence, and for DensityMatrixPart::truncate (test and flag) and the retention / stripe "
-                    "tests of the four prepare() functions by translator/gen_thermal.py (+ translator/cexpr.py): pattern recognition of those C++ statements, "
-                    "whose output the theorems of Properties_C19_source.v are stated about; the rest of the model (bimap lookups, permutation loop, part "
-                    "constructors) by correspondence only",
+                    "tests of the four prepare() functions by translator/gen_thermal.py (+ translator/cexpr.py): the stripe loops of GreensFunction / Susceptibility / "
+                    "EnsembleAverage::prepare are matched statement by statement and their body is executed symbolically (if / else, part creation with its constructor "
+                    "arguments, ++iterator, break / continue / return, bool locals) into one walk_step per function (gen_*_step), TwoParticleGF::prepare is matched "
+                    "statement by statement against the model's shape; the theorems of Properties_C19_source.v are stated about that output; the rest of the model "
+                    "(bimap lookups, getLeftIndex / getRightIndex, what the part constructors do with their arguments) by correspondence only",
                     "extraction: ExtrOcamlBasic, ExtrOcamlNatInt, ExtrOCamlFloats; ocaml/driver_c09.ml; harness/h_ed.cpp + ed_common.h; tools/edlib.py, tools/scen.py"]
     chk.assume += ["floating-point rounding is outside the theorems; slack 1e-12 (1+|value|) on top of each bound",
                    "hypotheses row_norm_c / row_norm_cx of gf_truncation_bound are checked numerically on the dumped operator blocks of every run (they are consequences of C10: the blocks are sub-matrices of c, c^+ in an orthonormal basis)",
